@@ -2,7 +2,7 @@
 C04 (exceptions).  TLC executes the TLA+ semantics on every generated program and prints the predicted output and
 final status; the real VM runs the printed source; any difference is a candidate violation."""
 import json, random, collections
-import vlib, lang, langrun, gen
+import vlib, lang, langrun, gen, unwindlib
 
 FAMILIES = {}
 
@@ -180,6 +180,9 @@ def compare_repl(pred, r):
     return None
 
 
+UNWIND_PIDS = ("C04", "C18", "C11")
+
+
 def run(pid, tier, replay=None):
     v = vlib.Verdict(pid, tier)
     rnd = random.Random(vlib.seed() * 7919 + int(pid[1:]))
@@ -217,7 +220,8 @@ def run(pid, tier, replay=None):
             vmcases.append({"id": f"{c['id']}|{lay}", "files": {"main.lay": src}, "_case": c["id"], "_layout": lay, "_lines": line_of})
     vm2 = []
     for rep, b in binaries:
-        res = vlib.run_batch(b, [{k: x[k] for k in ("id", "files", "repl") if k in x} for x in vmcases], per_case_timeout=20)
+        extra = {"classes": ["exc"], "max_events": 200000} if pid in UNWIND_PIDS else {}
+        res = vlib.run_batch(b, [dict({k: x[k] for k in ("id", "files", "repl") if k in x}, **extra) for x in vmcases], per_case_timeout=20)
         for x in vmcases:
             y = dict(x)
             y["_rep"] = rep
@@ -256,6 +260,17 @@ def run(pid, tier, replay=None):
                          "predicted": {"out": p["out"], "st": p["st"]},
                          "observed": {"stdout": r.get("stdout", "")[:3000], "stderr": r.get("stderr", "")[-1500:],
                                       "status": r["status"], "panic": r.get("panic", "")}})
+    if pid in UNWIND_PIDS:
+        # every run's frame / handler / nested loop events against the contract Unwind.tla
+        byid = {vc["id"] + "|" + vc["_rep"]: vc for vc in vmcases}
+        runs = [(k, vc["_res"].get("events", [])) for k, vc in byid.items() if vc["_res"].get("dropped", 0) == 0]
+
+        def describe(run_id, rej):
+            vc = byid[run_id]
+            c = bycase[vc["_case"]]
+            return {"id": c["id"], "layout": vc["_layout"], "ast": c["ast"], "source": vc["files"]["main.lay"], "files": vc["files"], "build": vc["_rep"],
+                    "unwind_event": rej}
+        unwindlib.validate(v, pid, runs, describe)
     if model_errors and len(model_errors) > len(cases) // 50:
         raise vlib.ToolError(f"Lang.tla cannot execute {len(model_errors)} generated programs, e.g. {model_errors[:3]}")
     v.cov["evaluations"] = judged
